@@ -221,7 +221,7 @@ func TestC02Rapid(t *testing.T) {
 		g.NonFlatConv = !harness.Excluded("conversion-order")
 		g.NonFlatCount = !harness.Excluded("count-duplicates")
 		e := g.PredExpr(ctx, 2)
-		l := &harness.Live{Property: "C02", Check: "C02/predicates", Doc: doc, Ctx: ctx, AST: e, Expr: xast.Render(e), Flavour: flavourOf(rt)}
+		l := &harness.Live{Property: "C02", Check: "C02/predicates", Doc: doc, Ctx: ctx, AST: e, Expr: renderDrawn(rt, e), Flavour: flavourOf(rt)}
 		if skipKnown(uC02, e) {
 			return
 		}
